@@ -53,6 +53,12 @@ type c13Case struct {
 	Control bool `json:"control_packet_arrives"`
 	// CloseFails: (connclose) the transport's Close reports an error (it is closed all the same)
 	CloseFails bool `json:"transport_close_reports_error"`
+	// Stray: (connclose) that many packets for channel ids nobody has arrive first and nobody
+	// reads the connection's errors (the error queue holds 10)
+	Stray int `json:"stray_packets_before_close,omitempty"`
+	// WriteFails: (close) the transport refuses every write from now on (broken towards the
+	// server): the teardown / logout cannot be sent, the channel is closed all the same
+	WriteFails bool `json:"transport_refuses_writes,omitempty"`
 }
 
 // env is one connection with its peer.
@@ -514,6 +520,9 @@ func runClose(c c13Case) *vh.Failure {
 		// the usual deferred cleanup after the caller's context has ended
 		e.cancel()
 	}
+	if c.WriteFails {
+		e.pipe.FailWrites(func(int, []byte) (int, error) { return 0, peer.ErrReset })
+	}
 	var cerr error
 	ok, pan, took := timed(bound, func() { cerr = ch.Close() })
 	_ = cerr
@@ -561,7 +570,10 @@ func runClose(c c13Case) *vh.Failure {
 	}
 	// packets for the closed id are connection errors, nothing is delivered (with the
 	// connection's context cancelled the reader has ended: nothing is read at all)
-	if c.Logical && !c.ParentCancelled {
+	if c.WriteFails {
+		vh.Label("close:transport-refuses-writes")
+	}
+	if c.Logical && !c.ParentCancelled && !c.WriteFails {
 		for e.conn.VerifConnErr() != nil {
 		}
 		e.sendPackages(id, 1000, 2, true)
@@ -639,6 +651,17 @@ func runConnClose(c c13Case) *vh.Failure {
 			time.Sleep(100 * time.Microsecond)
 		}
 	}
+	if c.Stray > 0 {
+		for i := 0; i < c.Stray; i++ {
+			e.pipe.Feed(rc.Packet{Type: rc.BufResponse, Channel: uint16(4000 + i), Status: rc.StatEOM, Body: []byte{rc.TokDone, 0, 0, 0, 0, 0, 0, 0, 0}}.Bytes())
+		}
+		// let the reader get to them
+		deadline := time.Now().Add(time.Second)
+		for e.conn.VerifConnErrLen() < 10 && e.conn.VerifConnErrLen() < c.Stray && time.Now().Before(deadline) {
+			time.Sleep(100 * time.Microsecond)
+		}
+		time.Sleep(300 * time.Microsecond)
+	}
 	if c.ParentCancelled {
 		e.cancel()
 		time.Sleep(time.Duration(c.DelayUs%300) * time.Microsecond)
@@ -692,6 +715,9 @@ func runConnClose(c c13Case) *vh.Failure {
 	}
 	if c.CloseFails {
 		vh.Label("connclose:transport-close-reports-error")
+	}
+	if c.Stray > 10 {
+		vh.Label("connclose:more-stray-packets-than-the-error-queue-holds")
 	}
 	if readerParked {
 		vh.Label("connclose:reader-parked")
@@ -760,6 +786,10 @@ func genCase(rt *rapid.T, kind string) c13Case {
 			c.ParentCancelled = true
 			c.Parked = rapid.Bool().Draw(rt, "parked-main")
 		}
+		if !c.Parked && rapid.IntRange(0, 3).Draw(rt, "writefails") == 0 {
+			// (the main channel's logout then fails at once instead of waiting for an answer)
+			c.WriteFails = true
+		}
 	case "connclose":
 		c.NChan = rapid.IntRange(1, 4).Draw(rt, "channels")
 		c.Logical = false
@@ -775,6 +805,9 @@ func genCase(rt *rapid.T, kind string) c13Case {
 		c.Peer = rapid.SampledFrom([]string{"now", "now", "late"}).Draw(rt, "peer")
 		c.ParentCancelled = rapid.IntRange(0, 2).Draw(rt, "parentcancelled") == 0
 		c.CloseFails = rapid.IntRange(0, 3).Draw(rt, "closefails") == 0
+		if !c.ErrFull && c.Sent <= c.Cap && rapid.IntRange(0, 3).Draw(rt, "stray") == 0 {
+			c.Stray = rapid.SampledFrom([]int{1, 9, 10, 11, 12, 15}).Draw(rt, "nstray")
+		}
 	}
 	return c
 }
